@@ -95,6 +95,16 @@ class StateEvaluator:
             # previous (= last acknowledged) or a newer checkpoint
             if c[0] == 'complete' and max(c[1]) >= n_done:
                 return True, cls, None
+        # The property asks for a complete results file on disk, not for a particular name: a save protocol that
+        # keeps the complete file under a third name for a while (temporary file + rotation) also satisfies it.
+        ext = '.' + self.out.rsplit('.', 1)[-1]
+        for p in sorted(files):
+            if p in (self.out, self.bak) or not p.endswith(ext):
+                continue
+            c = self.classify(files.get(p), by_sha, by_content, p)
+            if c[0] == 'complete' and max(c[1]) >= n_done:
+                self.world.probe('complete_file_under_another_name')
+                return True, cls, None
         have = [sorted(c[1]) if c[0] == 'complete' else c[0] for c in (co, cb)]
         return False, cls, (f'after {n_done} completed save(s): output={have[0]} backup={have[1]}; no complete file '
                             f'from checkpoint {n_done} or {n_done + 1} remains')
@@ -415,7 +425,9 @@ def recover(world, cfg):
     """What a user does after a crash: load the output, else the backup.  Returns (filename, data) or None."""
     import tenpy.tools.hdf5_io as h5mod
     out_p, bak_p = paths_for(cfg)
-    for p in (out_p, bak_p):
+    ext = '.' + out_p.rsplit('.', 1)[-1]
+    others = sorted(p for p in world.fs.files if p not in (out_p, bak_p) and p.endswith(ext))
+    for p in [out_p, bak_p] + others:
         raw = world.fs.files.get(p)
         if raw is None:
             continue
